@@ -76,18 +76,35 @@ def token_stream(run, models, tag):
         F = m.F
         # get_next_token advances by exactly one token: current_token := tokenizer.next() (Err on None)
         f = m.tb.fn("::parser::Parser::get_next_token")
-        t = m.tb.fn_term(f)
+        t = m.tb.parser_term(f)
         NT = ("call", "<Tokenizer<'_> as iter::Iterator>::next", ("field", ("param", "self"), "tokenizer"))
         GET = ("|", ("match", NT, (("pvar", "Option::Some", ("bind", "?b")), ("var", "?b")), (("pvar", "Option::None"), ("return", ("Err",)))), ("try", ("lift", NT)))
         SETP = ("set", ("field", ("param", "self"), "previous_token"), ("Some", ("field", ("param", "self"), "current_token")))
         SETC = ("set", ("field", ("param", "self"), "current_token"), ("var", "?t"))
-        okg = M(("seq", ("let", "?t", GET), SETP, SETC, ("Ok", ("tuple",))), t) is not None or M(("seq", ("let", "?t", GET), SETC, ("Ok", ("tuple",))), t) is not None
+        SWAP = ("set", ("field", ("param", "self"), "previous_token"), ("Some", ("call", "std::mem::replace", ("field", ("param", "self"), "current_token"), ("var", "?t"))))
+        SWAP0 = ("call", "std::mem::replace", ("field", ("param", "self"), "current_token"), ("var", "?t"))
+        okg = any(M(p_, t) is not None for p_ in (("seq", ("let", "?t", GET), SETP, SETC, ("Ok", ("tuple",))), ("seq", ("let", "?t", GET), SETC, ("Ok", ("tuple",))),
+                                                  ("seq", ("let", "?t", GET), SWAP, ("Ok", ("tuple",))), ("seq", ("let", "?t", GET), SWAP0, ("Ok", ("tuple",)))))
         run.ob(okg, "advance|%s" % ev, "%s premise (token stream): " % tag + "get_next_token replaces the current token by the next token of the input, exactly one per call", "%s (%s)" % (f.key, f.file), "" if okg else "UNRECOGNISED: " + T.show(t)[:300])
         f = m.tb.fn("::parser::Parser::new")
-        t = m.tb.fn_term(f)
-        e = M(("seq", ("let", "?lx", ("call", "Lex.Tokenizer::new", ("param", "?ex"))), ("let", "?t", ("|", ("match", ("call", "<Tokenizer<'_> as iter::Iterator>::next", ("var", "?lx")), (("pvar", "Option::Some", ("bind", "?b")), ("var", "?b")), (("pvar", "Option::None"), ("return", ("Err",)))),
-                                                                                                   ("try", ("lift", ("call", "<Tokenizer<'_> as iter::Iterator>::next", ("var", "?lx")))))),
-               ("Ok", ("struct", "Parser::Parser", ("tokenizer", ("var", "?lx")), ("current_token", ("var", "?t")), ("previous_token", "_"), ("placeholder", "_")))), t)
+        t = m.tb.parser_term(f)
+        # single-use immutable bindings are substituted (a binding for the placeholder default, for the first token, ...)
+        items = list(t[1:]) if isinstance(t, tuple) and t and t[0] == "seq" else [t]
+        env_ = {}
+        kept = []
+        for it in items:
+            if isinstance(it, tuple) and len(it) == 3 and it[0] == "let" and isinstance(it[1], str) and it[1].startswith("v"):
+                env_[it[1]] = it[2]
+            else:
+                kept.append(it)
+        from .tables import subst_vars
+        flat = tuple(kept)
+        for _ in range(len(env_) + 1):
+            flat = subst_vars(flat, env_)
+        flat = flat[0] if len(flat) == 1 else ("seq",) + flat
+        NEXT1 = ("try", ("lift", ("call", "<Tokenizer<'_> as iter::Iterator>::next", ("var", "?lx"))))
+        e = M(("seq", ("let", "?lx", ("call", "Lex.Tokenizer::new", ("param", "?ex"))),
+               ("Ok", ("struct", "Parser::Parser", ("tokenizer", ("var", "?lx")), ("current_token", NEXT1), ("previous_token", "_"), ("?f4", "_")))), flat)
         run.ob(e is not None, "parser-new|%s" % ev, "%s premise (token stream): " % tag + "Parser::new tokenizes the given text and starts at its first token", "%s (%s)" % (f.key, f.file), "" if e is not None else "UNRECOGNISED: " + T.show(t)[:300])
         ft = None
         for k_, g_ in F.by_key.items():
